@@ -241,6 +241,65 @@ theorem tie_mkVolMgrConds : mkVolMgrConds =
    "if repl < 1",
    "if !mnt.KeepMount.ReadOnly"] := rfl
 
+/-! ### HTTP codes of the KeepError values (composite literals in keepstore.go) -/
+
+/-- the `var (...)` block of KeepError values, line by line -/
+theorem tie_keepErrorLines : keepErrorLines =
+  ["BadRequestError     = &KeepError{400, \"Bad Request\"}",
+   "UnauthorizedError   = &KeepError{401, \"Unauthorized\"}",
+   "CollisionError      = &KeepError{500, \"Collision\"}",
+   "RequestHashError    = &KeepError{422, \"Hash mismatch in request\"}",
+   "PermissionError     = &KeepError{403, \"Forbidden\"}",
+   "DiskHashError       = &KeepError{500, \"Hash mismatch in stored data\"}",
+   "ExpiredError        = &KeepError{401, \"Expired permission signature\"}",
+   "NotFoundError       = &KeepError{404, \"Not Found\"}",
+   "VolumeBusyError     = &KeepError{503, \"Volume backend busy\"}",
+   "GenericError        = &KeepError{500, \"Fail\"}",
+   "FullError           = &KeepError{503, \"Full\"}",
+   "SizeRequiredError   = &KeepError{411, \"Missing Content-Length\"}",
+   "TooLongError        = &KeepError{413, \"Block is too large\"}",
+   "MethodDisabledError = &KeepError{405, \"Method disabled\"}",
+   "ErrNotImplemented   = &KeepError{500, \"Unsupported configuration\"}",
+   "ErrClientDisconnect = &KeepError{503, \"Client disconnected\"}"] := rfl
+
+open ArvVerif.C01 in
+/-- the status codes the model answers with are the codes of the KeepError values the handlers
+return: each line of the block is `<name> = &KeepError{` ++ the model's code ++ `, "<message>"}`.
+GetBlock: NotFoundError / DiskHashError; PutBlock: RequestHashError / CollisionError / FullError /
+GenericError; handlePUT: SizeRequiredError / TooLongError; ErrClientDisconnect. -/
+theorem tie_keepErrorCodes :
+    keepErrorLines[7]? = some ("NotFoundError       = &KeepError{" ++ Nat.repr (getErrStatus .notFound) ++ ", \"Not Found\"}") ∧
+    keepErrorLines[5]? = some ("DiskHashError       = &KeepError{" ++ Nat.repr (getErrStatus .diskHash) ++ ", \"Hash mismatch in stored data\"}") ∧
+    keepErrorLines[3]? = some ("RequestHashError    = &KeepError{" ++ Nat.repr (putStatus .requestHash) ++ ", \"Hash mismatch in request\"}") ∧
+    keepErrorLines[2]? = some ("CollisionError      = &KeepError{" ++ Nat.repr (putStatus .collision) ++ ", \"Collision\"}") ∧
+    keepErrorLines[10]? = some ("FullError           = &KeepError{" ++ Nat.repr (putStatus .full) ++ ", \"Full\"}") ∧
+    keepErrorLines[9]? = some ("GenericError        = &KeepError{" ++ Nat.repr (putStatus .generic) ++ ", \"Fail\"}") ∧
+    keepErrorLines[11]? = some ("SizeRequiredError   = &KeepError{" ++
+      Nat.repr (handlePut (fun (b : Nat) => b) (fun _ => 0) ([] : List (Vol Nat Nat)) 0 0 0 false).1.status ++
+      ", \"Missing Content-Length\"}") ∧
+    keepErrorLines[12]? = some ("TooLongError        = &KeepError{" ++
+      Nat.repr (handlePut (fun (b : Nat) => b) (fun _ => ArvVerif.C01.blockSize + 1) ([] : List (Vol Nat Nat)) 0 0 0 true).1.status ++
+      ", \"Block is too large\"}") ∧
+    keepErrorLines[15]? = some ("ErrClientDisconnect = &KeepError{" ++
+      Nat.repr (handleGetEnv (fun (b : Nat) => b) (fun _ => 0) ⟨true, some 0⟩ [(⟨false, false, 1, fun _ => none⟩ : Vol Nat Nat)] 0).status ++
+      ", \"Client disconnected\"}") :=
+  ⟨rfl, rfl, rfl, rfl, rfl, rfl, rfl, rfl, rfl⟩
+
+/-- the literal codes in the model's handlePut / handlePutEnv / handleGetEnv early exits -/
+theorem tie_handlerLiteralCodes :
+    (ArvVerif.C01.handlePut (fun (b : Nat) => b) (fun _ => 0) ([] : List (ArvVerif.C01.Vol Nat Nat)) 0 0 0 false).1.status = 411 ∧
+    (ArvVerif.C01.handlePut (fun (b : Nat) => b) (fun _ => ArvVerif.C01.blockSize + 1) ([] : List (ArvVerif.C01.Vol Nat Nat)) 0 0 0 true).1.status = 413 ∧
+    (ArvVerif.C01.handlePut (fun (b : Nat) => b) (fun _ => 0) ([] : List (ArvVerif.C01.Vol Nat Nat)) 0 0 0 true).1.status = 503 ∧
+    (ArvVerif.C01.handleGetEnv (fun (b : Nat) => b) (fun _ => 0) ⟨false, none⟩ ([] : List (ArvVerif.C01.Vol Nat Nat)) 0).status = 503 := by
+  decide
+
+/-- handlePUT answers a short body with the literal 500 and a missing buffer with
+http.StatusServiceUnavailable (Model.C01.handlePutEnv) -/
+theorem tie_handlePutInts : handlePutInts = [1, 0, 500] := rfl
+
+/-- getBufferWithContext: a buffer, or ErrClientDisconnect when ctx ends first (Model.C01.GetEnv.bufOk) -/
+theorem tie_getBufferReturns : getBufferReturns = ["buf, nil", "nil, ErrClientDisconnect"] := rfl
+
 /-- the model's NextWritable on two writable mounts alternates starting with the second (counter
 starts at 0 and is incremented before use), as the source text above prescribes -/
 theorem tie_nextWritable_model :
